@@ -222,13 +222,18 @@ func (f *frame) unop(x *ssa.UnOp) {
 		f.setVal(x, app("bvnot", v.Sort, v))
 	case token.ARROW:
 		// channel receive: arbitrary value
+		var got Term
 		if x.CommaOk {
 			tup := x.Type().(*types.Tuple)
 			v := f.freshOf("recv", tup.At(0).Type())
 			ok := f.vc.declareFresh(f.prefix+"recvok", SBool)
 			f.tuples[x] = []Term{v, ok}
+			got = v
 		} else {
-			f.freshVal(x)
+			got = f.freshVal(x)
+		}
+		if w, ok := f.vc.watched("recv:" + valueName(x.X)); ok {
+			f.recordEvent(w, nil, []Term{got})
 		}
 	default:
 		unsup("unop %s", x.Op)
